@@ -249,7 +249,11 @@ func genScanCases(p *PRNG, n int) []*Case {
 		switch p.Intn(12) {
 		case 10, 11:
 			m := GenModel(p.Fork(), 1+p.Intn(3))
-			txt, exp := RenderTreeLex(ModelTree(m), RandomLayout(p.Fork()))
+			la := RandomLayout(p.Fork())
+			if p.Chance(1, 2) {
+				la.BlockAnn, la.AnnStars = true, true
+			}
+			txt, exp := RenderTreeLex(ModelTree(m), la)
 			add("rendered", []byte(txt))
 			cases[len(cases)-1].Exp = exp
 		case 0, 1, 2, 3:
